@@ -40,8 +40,15 @@ def model_variants(net):
 
 
 def check_model(net, bounds, ruleset, stats, rich=False):
+    import zlib
+
+    from .. import origins
+
+    # every model from the fresh and the observed origin, plus one further origin (mc/origins.py) chosen by a checksum
+    # of the case, so that all origins are spread over the family and a case always gets the same one
+    extra = origins.ORIGINS[zlib.crc32(repr((net, bounds, tuple(ruleset))).encode()) % len(origins.ORIGINS)]
     out = []
-    for origin in ("fresh", "observed"):
+    for origin in dict.fromkeys(("fresh", "observed", extra)):
         out.extend(_check_model(net, bounds, ruleset, stats, rich, origin))
     return out
 
@@ -71,6 +78,15 @@ def _check_model(net, bounds, ruleset, stats, rich=False, origin="fresh"):
         from .. import prehistory
 
         prehistory.observe_everything(model)
+    elif origin != "fresh":
+        from .. import origins
+
+        try:
+            model = origins.derive(model, origin)
+        except origins.OriginUnavailable:
+            stats["origin_unavailable"] = stats.get("origin_unavailable", 0) + 1
+            return []
+        stats["models_from_origins"] = stats.get("models_from_origins", 0) + 1
     out = []
     cache = {}
 
@@ -298,6 +314,9 @@ def explore(ctx):
                 "default) + essential genes/reactions (default and half-optimum threshold) + knockout accessor; non-trivial "
                 "= knock-out changes the optimum / needs a non-zero adjustment" % (P["nm"], P["nr"], len(RULESETS)),
         "exhaustive": True, "networks": len(nets), "models": stats.get("models", 0), "exactlp_selftest_lps": n_self,
+        "origins": "every model from the origins fresh and observed, plus one further origin of mc/origins.py chosen by a "
+                   "checksum of the case (%d models; route itself failed for %d)" % (
+                       stats.get("models_from_origins", 0), stats.get("origin_unavailable", 0)),
     })
     ctx.sample({"net": [list(c) for c in nets[0]], "rules": RULESETS[1]})
     ctx.assumptions += ["linear MOMA: reported growth must lie in the exact range of the objective over minimal-adjustment "
